@@ -3,5 +3,6 @@
 pub mod big;
 pub mod dec;
 pub mod esr;
+pub mod list;
 pub mod mnemonic;
 pub mod resp;
